@@ -1399,3 +1399,153 @@ Proof.
     subst r. rewrite (rep_nokw _ _ Hrep). reflexivity.
   - rewrite Hloop. subst r. reflexivity.
 Qed.
+
+(* ================================================================== _block_invalid_consts *)
+
+Fixpoint strs_of (l : list pyval) : option (list pystr) :=
+  match l with
+  | [] => Some []
+  | PStr s :: t => match strs_of t with Some r => Some (s :: r) | None => None end
+  | _ => None
+  end.
+
+Lemma str_in_ext n a b : (forall x, In x a <-> In x b) -> str_in n a = str_in n b.
+Proof.
+  intro H. destruct (str_in n b) eqn:E.
+  - apply str_in_In. apply H. apply str_in_In. exact E.
+  - apply str_in_false. intro Hin. apply H in Hin. exact (proj1 (str_in_false n b) E Hin).
+Qed.
+
+Lemma str_in_app n a b : str_in n (a ++ b) = str_in n a || str_in n b.
+Proof. unfold str_in. apply existsb_app. Qed.
+
+Lemma str_in_union n a b : str_in n (a ++ filter (fun x => negb (str_in x a)) b) = str_in n a || str_in n b.
+Proof.
+  rewrite str_in_app. destruct (str_in n a) eqn:Ea; cbn [orb]; [reflexivity|].
+  destruct (str_in n b) eqn:Eb.
+  - apply str_in_In. apply filter_In. split; [apply str_in_In; exact Eb|rewrite Ea; reflexivity].
+  - apply str_in_false. intro Hin. apply filter_In in Hin as [Hin _]. exact (proj1 (str_in_false n b) Eb Hin).
+Qed.
+
+Lemma bitor_keys_strs a b :
+  dv_bitor (v_keys a) (PSet false (v_strs b)) = Ok (PSet false (v_strs (a ++ filter (fun n => negb (str_in n a)) b))).
+Proof.
+  unfold dv_bitor. replace (as_setlike (v_keys a)) with (Some (v_strs a)) by reflexivity.
+  cbn [as_setlike]. replace (left_frozen (v_keys a)) with false by reflexivity. do 2 f_equal.
+  transitivity (v_strs a ++ v_strs (filter (fun n => negb (str_in n a)) b)); [|unfold v_strs; rewrite map_app; reflexivity].
+  f_equal. apply filter_strs. intro n. rewrite py_in_strs. reflexivity.
+Qed.
+
+Lemma is_dunder_eq n : Define.is_dunder n = str_is_dunder n.
+Proof.
+  unfold Define.is_dunder, str_is_dunder. f_equal.
+  destruct (Nat.ltb_spec 4 (length n)); [apply Z.ltb_lt|apply Z.ltb_ge]; lia.
+Qed.
+
+Lemma starts_with_eq p s : Define.starts_with p s = PyOpsFields.str_prefix p s.
+Proof. reflexivity. Qed.
+
+Lemma foldM_check_items (f : unit -> pyval -> res unit) (bad : pystr * pyval -> bool) x l :
+  (forall p, f tt (v_item p) = if bad p then Raise x else Ok tt) ->
+  dv_foldM f (map v_item l) tt = if existsb bad l then Raise x else Ok tt.
+Proof.
+  intro H. unfold dv_foldM. induction l as [|p t IH]; [reflexivity|].
+  cbn [map py_foldM existsb]. rewrite H. destruct (bad p); cbn [bind orb]; [reflexivity|exact IH].
+Qed.
+
+(* what _block_invalid_consts objects to: an entry of the class dict whose name is neither annotated, nor a
+   known attribute, nor a dunder, nor a custom attribute, and whose value is a bool, a list or a dict *)
+Definition bad_entry (h : heap) (annotated : list pystr) (nv : pystr * pyval) : bool :=
+  negb (str_in (fst nv) annotated || known_attr (fst nv) || Define.is_dunder (fst nv) ||
+        starts_with (s2p "_custom_attribute_") (fst nv)) &&
+  py_isinstance (deref h (snd nv)) [K_bool; K_list; K_dict].
+
+(* cls_dict.get("__annotations__", {}): absent, a dict held by value, or a dict of the heap *)
+Definition annotations_are (h : heap) (ents : list (pystr * pyval)) (ann : list (pystr * pyval)) : Prop :=
+  match alist_get ents (s2p "__annotations__") with
+  | None => ann = []
+  | Some v => deref h v = PDict (skeys ann)
+  end.
+
+Ltac name_set_display :=
+  match goal with
+  | |- context [py_set_display ?l] =>
+      let r := eval vm_compute in (match py_set_display l with Ok (PSet false x) => strs_of x | _ => None end) in
+      match r with
+      | Some ?S => replace (py_set_display l) with (Ok (PSet false (v_strs S))) by (vm_compute; reflexivity)
+      end
+  end.
+
+Theorem block_invalid_consts_gen so X h ents ann :
+  annotations_are h ents ann ->
+  DefineSrc.block_invalid_consts so X h (PDict (skeys ents)) =
+  if existsb (bad_entry h (map fst ann)) ents then Raise ValueError else Ok PNone.
+Proof.
+  intro Hann. unfold DefineSrc.block_invalid_consts. cbv zeta. rewrite !deref_dict.
+  rewrite dict_get_skeys_def. cbn [bind].
+  assert (Ek : dv_keys (deref h match alist_get ents (s2p "__annotations__") with Some v => v | None => PDict [] end)
+               = Ok (v_keys (map fst ann))).
+  { unfold annotations_are in Hann. destruct (alist_get ents (s2p "__annotations__")) as [v|].
+    - rewrite Hann. apply keys_skeys.
+    - subst ann. reflexivity. }
+  rewrite Ek. cbn [bind].
+  name_set_display. cbn [bind].
+  unfold v_keys at 1. rewrite deref_view. fold (v_keys (map fst ann)). rewrite deref_set, bitor_keys_strs. cbn [bind].
+  name_set_display. cbn [bind]. rewrite !deref_set, bitor_strs. cbn [bind].
+  rewrite items_skeys. cbn [bind]. rewrite deref_view, iter_items_view. cbn [bind].
+  rewrite (foldM_check_items _ (bad_entry h (map fst ann)) ValueError).
+  - destruct (existsb _ ents); reflexivity.
+  - intros [n v]. unfold v_item. cbn [fst snd]. unfold py_unpack. cbn [py_iter_items bind length Nat.eqb].
+    rewrite deref_set, in_set. rewrite !str_in_union, <- !orb_assoc.
+    match goal with |- context [str_in n ?A || str_in n ?B] =>
+      replace (str_in n A || str_in n B) with (known_attr n)
+    end.
+    2:{ unfold known_attr. rewrite <- str_in_app. apply str_in_ext. intro x. vm_compute. tauto. }
+    unfold bad_entry. cbn [fst snd py_or py_is_dunder bind]. rewrite is_dunder_eq, starts_with_eq.
+    destruct (str_in n (map fst ann)); cbn [orb negb andb bind]; [reflexivity|].
+    destruct (known_attr n); cbn [orb negb andb bind]; [reflexivity|].
+    destruct (str_is_dunder n); cbn [orb negb andb bind]; [reflexivity|].
+    unfold dv_startswith. destruct (PyOpsFields.str_prefix (s2p "_custom_attribute_") n); cbn [orb negb andb bind]; [reflexivity|].
+    unfold py_isinstance. cbn [existsb].
+    destruct (isinstance1 (deref h v) K_bool); cbn [orb bind]; [reflexivity|].
+    destruct (isinstance1 (deref h v) K_list); cbn [orb bind]; [reflexivity|].
+    destruct (isinstance1 (deref h v) K_dict); reflexivity.
+Qed.
+
+(* a value of the kind the model's class statement gives to a non-field attribute *)
+Definition uval_matches (h : heap) (u : uval) (v : pyval) : bool :=
+  match u, deref h v with
+  | UBool, PBool _ | UList, PList _ | UDict, PDict _ | UInt, PNum (NInt _) | UStr, PStr _ => true
+  | UType, POther _ _ => true
+  | _, _ => false
+  end.
+
+(* the check of [define]: for a class dict whose entries are the non-field attributes of the statement (each with
+   a value of its kind, none of them annotated) and otherwise only entries the function does not object to *)
+Theorem block_invalid_consts_src so X h s ents ann :
+  annotations_are h ents ann ->
+  (forall n u, In (n, u) (s_attrs s) ->
+     str_in n (map fst ann) = false /\ exists v, In (n, v) ents /\ uval_matches h u v = true) ->
+  (forall n v, In (n, v) ents -> bad_entry h (map fst ann) (n, v) = true ->
+     exists u, In (n, u) (s_attrs s) /\ uval_matches h u v = true) ->
+  DefineSrc.block_invalid_consts so X h (PDict (skeys ents)) =
+  if existsb invalid_const (s_attrs s) then Raise ValueError else Ok PNone.
+Proof.
+  intros Hann Hattrs Hinert. rewrite (block_invalid_consts_gen so X h ents ann Hann).
+  replace (existsb (bad_entry h (map fst ann)) ents) with (existsb invalid_const (s_attrs s)); [reflexivity|].
+  assert (Hkind : forall u v, uval_matches h u v = true ->
+            py_isinstance (deref h v) [K_bool; K_list; K_dict] = match u with UBool | UList | UDict => true | _ => false end).
+  { intros u v Hm. unfold uval_matches in Hm. destruct u, (deref h v) as [| | [ | | ] | | | | | | | | | ]; try discriminate; reflexivity. }
+  destruct (existsb invalid_const (s_attrs s)) eqn:E.
+  - symmetry. apply existsb_exists in E as [[n u] [Hin Hbad]]. destruct (Hattrs n u Hin) as [Hna [v [Hv Hm]]].
+    apply existsb_exists. exists (n, v). split; [exact Hv|]. unfold bad_entry. cbn [fst snd]. rewrite Hna, (Hkind u v Hm).
+    unfold invalid_const in Hbad. cbn [orb]. exact Hbad.
+  - symmetry. destruct (existsb (bad_entry h (map fst ann)) ents) eqn:E2; [|reflexivity].
+    apply existsb_exists in E2 as [[n v] [Hin Hbad]]. destruct (Hinert n v Hin Hbad) as [u [Hu Hm]].
+    assert (Hi : invalid_const (n, u) = true).
+    { unfold bad_entry in Hbad. cbn [fst snd] in Hbad. rewrite (Hkind u v Hm) in Hbad. unfold invalid_const.
+      apply andb_true_iff in Hbad as [H1 H2]. rewrite H2, andb_true_r. apply negb_true_iff in H1. apply negb_true_iff.
+      destruct (str_in n (map fst ann)); [discriminate|]. exact H1. }
+    assert (Hex : existsb invalid_const (s_attrs s) = true) by (apply existsb_exists; exists (n, u); split; assumption).
+    congruence.
+Qed.
